@@ -83,7 +83,8 @@ ASSERT_GOOD = (
 
 def coerce_compare(exp, rep):
     """model reply of c16.coerce against the implementation's (scale, offset, dim, values)"""
-    _tag, sc, off, dim, vals = exp
+    _tag, sc, off, dim, vals = exp[:5]
+    rtol, atol = (exp[5], exp[6]) if len(exp) > 5 else (1e-11, 1e-9)
     e = ["ok", "unit-agrees", dim, "values-agree"]
     if rep[0] != "ok" or len(rep) != 5:
         return e, rep
@@ -91,7 +92,7 @@ def coerce_compare(exp, rep):
     r = ["ok",
          "unit-agrees" if core.close(core.b2f(rep[1]), sc, 1e-12) and core.close(core.b2f(rep[2]), off, 1e-12) else f"unit {core.b2f(rep[1])},{core.b2f(rep[2])} vs {sc},{off}",
          rep[3],
-         "values-agree" if len(mvals) == len(vals) and all(core.close(a, b, 1e-11, 1e-9) for a, b in zip(mvals, vals)) else f"values {mvals} vs {vals}"]
+         "values-agree" if len(mvals) == len(vals) and all(core.close(a, b, rtol, atol) for a, b in zip(mvals, vals)) else f"values {mvals} vs {vals}"]
     return e, r
 
 
@@ -389,6 +390,100 @@ def s4_constructors(ctx):
                     chk.fail("values|coerce", "values of the coerced list were not converted to the first element's unit",
                              {"python": src + "w = [float(e.to(lst[0].units)) for e in lst]\nassert np.allclose(r.d, w, rtol=1e-12, atol=1e-9), (r, w)\n"})
                 ctx.judge(r, "ctor", "coerce", src)
+
+
+# ==========================================================================================
+# S4b — `_coerce_iterable_units` as the program regenerated from the live source (c16.coerceprog):
+# element dtype kinds x offset / plain / incommensurable unit groups x element shapes x routes
+# (constructor from list / tuple, list operand of a binary ufunc on either side)
+
+COERCE_GROUPS = [["K", "degC", "degF"], ["degC", "K", "degF", "R"], ["degF", "degC"], ["R", "degF", "K"],
+                 ["degree", "lat", "radian"], ["lon", "degree"], ["lat", "lon", "degree"],
+                 ["m", "cm", "km"], ["s", "hr"], ["J", "erg", "eV"], ["km/hr", "m/s"], ["degC", "degC"], ["m", "m", "m"],
+                 ["m", "s"], ["K", "degC", "m"], ["degC", "s"]]
+# (name, literal of one reading from a float v, NumPy dtype kind, (rtol, atol) of the comparison)
+COERCE_KINDS = [("float", lambda v: repr(float(v)), "f", (1e-11, 1e-9)),
+                ("int", lambda v: repr(int(v)), "i", (1e-11, 1e-9)),
+                ("f4", lambda v: f"np.float32({float(v)!r})", "f", (2e-6, 1e-3)),
+                ("f2", lambda v: f"np.float16({float(v)!r})", "f", (2e-3, 0.6)),
+                ("i4", lambda v: f"np.int32({int(v)})", "i", (2e-6, 1e-3)),     # in_units promotes int32 to float32
+                ("arr", lambda v: f"np.array([{float(v)!r}, {float(v) + 1.5!r}])", "f", (1e-11, 1e-9)),
+                ("arr-i", lambda v: f"np.array([{int(v)}, {int(v) + 2}])", "i", (1e-11, 1e-9)),
+                ("arr2d", lambda v: f"np.array([[{float(v)!r}], [{float(v) - 0.5!r}]])", "f", (1e-11, 1e-9))]
+COERCE_ROUTES = [("ctor-list", "lst = [{items}]\nr = unyt_array(lst)\n"),
+                 ("ctor-tuple", "lst = ({items},)\nr = unyt_array(lst)\n"),
+                 ("ufunc-left", "lst = [{items}]\nbase = unyt_array(np.full(np.shape(lst), -1e300), lst[0].units)\nr = np.maximum(lst, base)\n"),
+                 ("ufunc-right", "lst = [{items}]\nbase = unyt_array(np.full(np.shape(lst), -1e300), lst[0].units)\nr = np.fmax(base, lst)\n")]
+COERCE_ASSERT = ("w = np.array([e.to(lst[0].units).d for e in lst], dtype=float)\n"
+                 "assert str(r.units) == str(lst[0].units), (r.units, lst[0].units)\n"
+                 "assert np.shape(r) == w.shape and np.allclose(np.asarray(r.d, dtype=float), w, rtol={rtol!r}, atol={atol!r}), (r, w)\n")
+
+
+def s4b_coerce_prog(ctx):
+    import unyt
+    import gen
+
+    chk = ctx.chk
+    rng = ctx.rng
+    ctx.ask("c16.coerceprog.ok", ["ok", "true"], "the regenerated loop body of _coerce_iterable_units converts every element with in_units(ff)")
+    for units in COERCE_GROUPS:
+        for kname, lit, kind, (rtol, atol) in COERCE_KINDS:
+            combos = [(rname, tmpl, "rot") for rname, tmpl in COERCE_ROUTES]
+            if kname in ("float", "int", "arr") and len(set(units)) > 1:
+                # where the first differing unit sits: only at the end / only in the middle of the list
+                combos += [(rname, tmpl, arr) for rname, tmpl in COERCE_ROUTES[::2] for arr in ("late", "mid")]
+            for rname, tmpl, arr in combos:
+                if kname == "f2" and "hr" in units:
+                    continue                     # 25 hr in s overflows float16: NumPy precision, not C16
+                n = len(units) if (rname, arr) == ("ctor-list", "rot") else rng.randint(2, 4)
+                if ctx.tier != "thorough" and rname != "ctor-list" and kname not in ("float", "int", "arr") and rng.random() < 0.5:
+                    continue
+                if arr == "rot":
+                    us = [units[i % len(units)] for i in range(n)]
+                else:
+                    other = next(u for u in units if u != units[0])
+                    n = rng.randint(4, 6)
+                    us = [units[0]] * n
+                    us[n - 1 if arr == "late" else rng.randint(2, n - 2)] = other
+                # small readings (0..60, quarter steps: exact in float16/32; uint8 stays in range)
+                vals = [float(rng.randrange(0, 240)) / 4.0 for _ in us]
+                items = ", ".join(f"unyt_quantity({lit(v)}, {u!r})" if not kname.startswith("arr") else f"unyt_array({lit(v)}, {u!r})" for v, u in zip(vals, us))
+                src = L.SETUP + tmpl.format(items=items)
+                env = {}
+                st, r = outcome(lambda: exec(src, env))
+                chk.case(("coerceprog", tuple(units), kname, rname, arr))
+                chk.count("S4b:" + rname + ":" + kname + ":" + arr)
+                lst = env.get("lst")
+                if lst is None:
+                    chk.disagree("section:S4b", f"input list could not be built: {src}")
+                    continue
+                uobjs = [unyt.Unit(u) for u in us]
+                elems = []
+                for e, u in zip(lst, uobjs):
+                    for x in np.asarray(e.d, dtype=float).ravel():
+                        elems.append("~".join([str(core.f2b(float(x))), str(core.f2b(u.base_value)), str(core.f2b(u.base_offset)), gen.dim_vec(u.dimensions), e.dtype.kind]))
+                wire = "|".join(elems)
+                commens = all(u.dimensions == uobjs[0].dimensions for u in uobjs)
+                if st == "err":
+                    ctx.ask(f"c16.coerceprog\t{wire}", ["err", core.exc_name(r)], f"{rname} {items}")
+                    if commens:
+                        chk.fail(f"raise|coerce|{rname}", f"a list of commensurable quantities was refused ({core.exc_name(r)})", {"python": src})
+                    continue
+                r = env["r"]
+                ctx.lines.append(f"c16.coerceprog\t{wire}")
+                ctx.expect.append((("coerce", float(r.units.base_value), float(r.units.base_offset), gen.dim_vec(r.units.dimensions),
+                                    [float(v) for v in np.asarray(r.d, dtype=float).ravel()], rtol, atol), f"{rname} {items}"))
+                # direct oracle (no model): first element's unit, every reading converted
+                want = np.array([e.to(lst[0].units).d for e in lst], dtype=float)
+                kcls = "float" if kind == "f" else "int"
+                if str(r.units) != str(lst[0].units) or r.units != lst[0].units:
+                    chk.fail(f"first-unit|coerce|{rname}", "the coerced list does not carry the first element's unit",
+                             {"python": src + COERCE_ASSERT.format(rtol=rtol, atol=atol)})
+                elif np.shape(r) != want.shape or not np.allclose(np.asarray(r.d, dtype=float), want, rtol=rtol, atol=atol):
+                    off = "offset" if any(u.base_offset != 0 for u in uobjs) else "plain"
+                    chk.fail(f"values|coerce|{rname}|{kcls}|{off}", "values of the coerced list were not converted to the first element's unit",
+                             {"python": src + COERCE_ASSERT.format(rtol=rtol, atol=atol)})
+                ctx.judge(r, "ctor", "coerce:" + rname, src)
 
 
 # ==========================================================================================
